@@ -128,11 +128,107 @@ var spellings = func() []spelling {
 	return out
 }()
 
-var numStmVariants = stmSpellBase + len(spellings)
+// stmParmBase: the variants from here on are the parm-reference family, see
+// parmSpecs.
+var stmParmBase = stmSpellBase + len(spellings)
+
+// parmSpec is one variant of the parm-reference family: a stream whose filter
+// parameter dictionary holds an indirect reference to a node of the source
+// graph (the /JBIG2Globals shape). The family is the product of
+//
+//	filter: 'F' /FlateDecode with <</Predictor 12 /Columns 4 /G ref>> (the
+//	        stream decodes; /G is a key the filter does not know, so the
+//	        library does not interpret the reference), 'J' /JBIG2Decode with
+//	        <</JBIG2Globals ref>> (the data is opaque: it is never decoded, the
+//	        oracle compares the stored bytes)
+//	shape:  where the parameter dictionary sits
+//	        'd' /Filter /X    /DecodeParms <<..>>
+//	        'a' /Filter [/X]  /DecodeParms [<<..>>]
+//	        'D' /Filter /X    /DecodeParms n 0 R      (n 0 obj <<..>>)
+//	        'A' /Filter [/X]  /DecodeParms [n 0 R]
+//	        'I' /Filter [/X]  /DecodeParms m 0 R      (m 0 obj [<<..>>])
+//	        'B' /Filter [/X]  /DecodeParms m 0 R      (m 0 obj [n 0 R])
+//	        '2' /Filter [/ASCIIHexDecode /X]  /DecodeParms [null <<..>>]
+//
+// In the object syntax the first item of such a stream is the reference inside
+// the parameter dictionary (a reference to an object of the graph, or a dead
+// reference), an optional second item is the /K entry: "SB<1>", "SB<10>".
+type parmSpec struct {
+	filter byte
+	shape  byte
+}
+
+const parmShapes = "daDAIB2"
+
+var parmShapeNames = map[byte]string{
+	'd': "name+dict", 'a': "array+array-of-dict", 'D': "name+indirect-dict", 'A': "array+array-of-indirect-dict",
+	'I': "array+indirect-array-of-dict", 'B': "array+indirect-array-of-indirect-dict", '2': "second-of-two-filters",
+}
+
+var parmSpecs = func() []parmSpec {
+	var out []parmSpec
+	for _, f := range []byte{'F', 'J'} {
+		for i := 0; i < len(parmShapes); i++ {
+			out = append(out, parmSpec{f, parmShapes[i]})
+		}
+	}
+	return out
+}()
+
+var numStmVariants = stmParmBase + len(parmSpecs)
+
+var parmVariants = func() []int {
+	var out []int
+	for v := stmParmBase; v < numStmVariants; v++ {
+		out = append(out, v)
+	}
+	return out
+}()
+
+// parmOf returns the description of a variant of the parm-reference family.
+func parmOf(v int) (parmSpec, bool) {
+	if v < stmParmBase || v >= numStmVariants {
+		return parmSpec{}, false
+	}
+	return parmSpecs[v-stmParmBase], true
+}
+
+// parmVariant is the inverse of parmOf.
+func parmVariant(filter, shape byte) int {
+	for i, ps := range parmSpecs {
+		if ps.filter == filter && ps.shape == shape {
+			return stmParmBase + i
+		}
+	}
+	panic("no such parm-reference variant")
+}
+
+func (ps parmSpec) String() string {
+	return "parm-ref:" + map[byte]string{'F': "Flate", 'J': "JBIG2"}[ps.filter] + ";" + parmShapeNames[ps.shape]
+}
+
+// stmRawOnly: the data of the variant is opaque (JBIG2Decode without a JBIG2
+// bit stream): nothing can decode it, in the source or in the target, so the
+// oracle compares the stored (decrypted, still encoded) bytes as long as the
+// target declares the same filter chain.
+func stmRawOnly(v int) bool {
+	ps, ok := parmOf(v)
+	return ok && ps.filter == 'J'
+}
+
+// stmParts splits the items of a stream object: p is the reference inside the
+// filter parameter dictionary (parm-reference family only), k the optional /K
+// entry, kPos the position of the /K item among the items of the object.
+func (o Obj) stmParts() (p, k []Item, kPos int) {
+	if _, ok := parmOf(o.V); ok && o.K == 'S' && len(o.It) > 0 {
+		return o.It[:1], o.It[1:], 1
+	}
+	return nil, o.It, 0
+}
 
 var spellVariants = func() []int {
 	var out []int
-	for v := stmSpellBase; v < numStmVariants; v++ {
+	for v := stmSpellBase; v < stmSpellBase+len(spellings); v++ {
 		out = append(out, v)
 	}
 	return out
@@ -155,7 +251,7 @@ func (sp spelling) String() string {
 // spellingOf returns the spelling of a stream variant (ok = false for the
 // variants 0..4).
 func spellingOf(v int) (spelling, bool) {
-	if v < stmSpellBase || v >= numStmVariants {
+	if v < stmSpellBase || v >= stmSpellBase+len(spellings) {
 		return spelling{}, false
 	}
 	return spellings[v-stmSpellBase], true
@@ -186,11 +282,15 @@ var stmNames = func() []string {
 	for _, sp := range spellings {
 		out = append(out, sp.String())
 	}
+	for _, ps := range parmSpecs {
+		out = append(out, ps.String())
+	}
 	return out
 }()
 
-// variantChars: the variant of a stream in the case syntax ("S0<>", "Sk<s>").
-const variantChars = "0123456789abcdefghijklmnopqrstuvwxyz"
+// variantChars: the variant of a stream in the case syntax ("S0<>", "Sk<s>",
+// "SB<1>").
+const variantChars = "0123456789abcdefghijklmnopqrstuvwxyzABCDEFGHIJKLMNOPQRSTUVWXYZ"
 
 func (it Item) String() string {
 	switch it.K {
@@ -355,7 +455,11 @@ func ParseGraph(s string) (Graph, error) {
 				return nil, fmt.Errorf("item %s only exists in a direct value", it)
 			}
 		}
-		if o.K == 'S' && len(o.It) > 1 {
+		if _, isParm := parmOf(o.V); o.K == 'S' && isParm {
+			if len(o.It) < 1 || len(o.It) > 2 || strings.IndexByte("rxfg", o.It[0].K) < 0 {
+				return nil, fmt.Errorf("a stream of the parm-reference family has a reference (inside /DecodeParms) and at most one entry")
+			}
+		} else if o.K == 'S' && len(o.It) > 1 {
 			return nil, fmt.Errorf("a stream has at most one entry")
 		}
 		if o.K == 'r' && strings.IndexByte("rxfg", o.It[0].K) < 0 {
@@ -515,6 +619,14 @@ type alphabet struct {
 	// an object of the graph, as the only item of a container or the /K entry
 	// of a stream
 	nested bool
+	// parm-reference family: streams of these variants, the reference inside
+	// the parameter dictionary leading to every object of the graph (the
+	// stream itself included) or being one of the dead kinds parmDead; with
+	// parmK also every such stream with an entry /K that refers to an object
+	// of the graph (a second path to the node the parameters refer to)
+	parmVariants []int
+	parmDead     string
+	parmK        bool
 }
 
 var rich = alphabet{name: "rich", items: "isnadxf", scalars: true, empties: true, arr2: true, dict1: true, dict2: true,
@@ -543,6 +655,29 @@ var mid = alphabet{name: "mid", items: "inax", scalars: true, empties: true, arr
 // spelling variant (and the plain and /Filter /FlateDecode variants 0 and 1 as
 // controls), bare, with a string entry, and with a reference entry.
 var spell = alphabet{name: "filter-spellings", items: "s", variants: append([]int{stmPlain, stmFlate}, spellVariants...), stmBare: true}
+
+// parmRefs is the alphabet of the parm-reference family: every variant, the
+// reference inside the parameter dictionary live or dangling, without and
+// with a /K reference; next to them the linking kinds (scalars, empty and
+// small containers, plain streams, bare references).
+var parmRefs = alphabet{name: "parm-refs", items: "ix", scalars: true, empties: true, arr2: true, dict1: true,
+	variants: []int{stmPlain}, stmBare: true, parmVariants: parmVariants, parmDead: "x", parmK: true}
+
+// parmRefsLean: the family cut down for three objects: the direct and the
+// doubly indirect placement for both filters, plus a dictionary inside a direct
+// array and an indirect dictionary for one filter each; live references only,
+// no /K entry (a second path comes from the third object).
+var parmRefsLean = alphabet{name: "parm-refs-lean", items: "ix", scalars: true, arr2: true, dict1: true,
+	variants: []int{stmPlain}, bareDead: true,
+	parmVariants: []int{parmVariant('F', 'd'), parmVariant('J', 'd'), parmVariant('F', 'B'), parmVariant('J', 'B'), parmVariant('J', 'a'), parmVariant('F', 'D')}}
+
+// parmRefsNoK: the whole family without the /K entry (three objects: the
+// second path comes from another object).
+var parmRefsNoK = func() alphabet {
+	a := parmRefs
+	a.name, a.parmK = "parm-refs-nok", false
+	return a
+}()
 
 // leanStale, midStale: the same with stale references.
 var leanStale = withStale(lean)
@@ -643,6 +778,23 @@ func (a alphabet) kinds(n int) []Obj {
 				continue
 			}
 			out = append(out, Obj{K: 'S', V: v, It: []Item{x}})
+		}
+	}
+	for _, v := range a.parmVariants {
+		var ps []Item
+		for j := 0; j < n; j++ {
+			ps = append(ps, Item{'r', j})
+		}
+		for i := 0; i < len(a.parmDead); i++ {
+			ps = append(ps, Item{K: a.parmDead[i]})
+		}
+		for _, p := range ps {
+			out = append(out, Obj{K: 'S', V: v, It: []Item{p}})
+			if a.parmK {
+				for j := 0; j < n; j++ {
+					out = append(out, Obj{K: 'S', V: v, It: []Item{p, {'r', j}}})
+				}
+			}
 		}
 	}
 	for j := 0; j < n; j++ {
